@@ -24,7 +24,7 @@ CHECKS = {
     },
     "C03": {
         "technique": "differential property-based testing: Polars executor (eager and lazy) vs Pandas executor on generated operator DAGs; exceptions allowed and bucketed",
-        "text": "Differential exploration on generated DAGs and tables: whenever the Polars executor (eager or lazy) returns, its column set and row multiset must equal the Pandas result, and eager must equal lazy; a raising Polars run is allowed by the property and is counted per (exception type, innermost data_algebra frame). Evidence reports the returned/raised ratio.",
+        "text": "Differential exploration on generated DAGs and tables: whenever the Polars executor (eager or lazy) returns, its column set and row multiset must equal the Pandas result, and eager must equal lazy; a raising Polars run is allowed by the property and is counted per (exception type, innermost data_algebra frame). Evidence reports the returned/raised ratio. A second campaign (nan_flow) computes a NaN inside the pipeline (0.0/0.0) and feeds it to one consumer; the NaN-unaware methods are recorded finding F78 and excluded while it is open.",
         "note": "Trusted: Pandas executor as reference side, vp.cmp, vp.schema. polars 1.44 lacks several old-API methods (cumsum...), so ordered windows mostly raise and are down-weighted, not removed.",
     },
     "C05": {
@@ -50,7 +50,7 @@ CHECKS = {
     },
     "C11": {
         "technique": "metamorphic property-based testing: single-point spec mutations; every pair that compares equal is checked for identical SQL in five dialects and identical results",
-        "text": "Pairs (p, q) where q is p with one point mutation out of 22 kinds (literal value/type, operator, method, column reference, jointype, join keys, reverse, limit, partition_by/order_by, concat id/labels, record-map cell/key, list orders, table column list, targets) or an independent rebuild; == must be reflexive, symmetric and consistent with !=; whenever differing specs compare equal, to_sql must be identical for SQLite, PostgreSQL, BigQuery, Spark and MySQL and Pandas results identical on three data sets. A dedicated campaign mutates record maps.",
+        "text": "Pairs (p, q) where q is p with one point mutation out of 26 kinds (literal value/type incl. int/bool, operator, method, column reference, jointype, join keys incl. key order and re-pairing, reverse, limit, partition_by/order_by, window flag partition_by=1 vs none, n-ary and/or chains, is_in/mapv collection elements, concat id/labels, record-map cell/key, list orders, table column list, targets) or an independent rebuild; == must be reflexive, symmetric and consistent with !=; whenever differing specs compare equal, to_sql must be identical for SQLite, PostgreSQL, BigQuery, Spark and MySQL and Pandas results identical on three data sets. A dedicated campaign mutates record maps.",
         "note": "Trusted: the spec mutator in vp/checks/c11.py. Only the forward direction (equal => same behaviour) is required.",
     },
     "C12": {
@@ -125,7 +125,7 @@ CHECKS = {
     "C20": {
         "engine": "hypothesis-stateful",
         "technique": "stateful model-based testing: RuleBasedStateMachine driving DataModelSpace and DBSpace(SQLite) against dict models",
-        "text": "Random histories (<=25 steps) of insert/execute/remove/describe/retrieve/keys with user keys, automatic keys and keys equal to the automatic names are applied to the in-memory and the SQLite-backed data space and to a dict model; after every step keys(), retrieve() and describe() must match the model, illegal operations must raise and change nothing, automatic keys must be fresh.",
+        "text": "Random histories (<=25 steps) of insert/execute/remove/describe/retrieve/keys with user keys, automatic keys and keys equal to the automatic names are applied to the in-memory and the SQLite-backed data space and to a dict model; after every step keys(), retrieve() and describe() must match the model, illegal operations (overwrite without permission, missing keys, pipelines over removed entries) must raise and change nothing, automatic keys must be fresh.",
         "note": "Trusted: the dict model and the Pandas executor on a five-pipeline null-free family (used to compute expected execute() results). Copy semantics and exception types are not checked (undocumented).",
     },
     "C21": {
